@@ -98,45 +98,44 @@ theorem C14_ctors :
        ("single_frequency_complex_solution", "ComplexNetworkDiagramSolution", "ComplexSolution", ["w"]),
        ("complex_solution", "ComplexNetworkDiagramSolution", "ComplexSolution", []),
        ("real_solution", "RealNetworkDiagramSolution", "DCSolution", [])]
+    ∧ (ctors.map fun c => c.solutionLits) = [[], [("peak_values", true)], [], [], []]
     ∧ solution_type_key = "type" ∧ solution_fallback = "empty_solution"
     ∧ solutions.map (·.1) = ["dc", "real", "complex", "single_frequency_time_domain"] := by
   decide
 
-/-- **C14_lookup, full strength**: every declared solution type selects the adapter kind the
-specification names.  *False* for the current code (`C14_lookup_counterexample`). -/
-def C14_lookup_statement : Prop := ∀ ty k, specKind ty = some k → declaredKind ty = some k
-
-/-- **finding** — `'single_frequency_time_domain'` selects the complex (phasor) adapter. -/
-theorem C14_lookup_counterexample : ¬ C14_lookup_statement := by
-  intro h
-  have := h "single_frequency_time_domain" .timeDomain (by decide)
-  revert this; decide
-
-theorem C14_lookup_time_domain_is_complex :
-    declaredKind "single_frequency_time_domain" = some .complex
-    ∧ ctorNameOfType "single_frequency_time_domain" = "single_frequency_complex_solution"
-    ∧ filterParams "single_frequency_time_domain" ["w", "sin", "deg", "hertz", "precision", "polar"]
-        = ["w", "deg", "precision", "polar"] := by
-  decide
-
-/-- **C14_lookup** (strongest true restriction) — `dc`, `real` and `complex` select the
-specified kind; an undeclared type falls back to empty labels. -/
-theorem C14_lookup_partial :
-    declaredKind "dc" = specKind "dc" ∧ declaredKind "real" = specKind "real"
-    ∧ declaredKind "complex" = specKind "complex"
+/-- **C14_lookup** — every declared solution type selects the adapter kind the specification
+names, with peak values exactly for the time function; an undeclared type falls back to empty
+labels.  (Formerly refuted: `'single_frequency_time_domain'` selected the complex adapter and
+the time function carried the RMS amplitude; repaired in /repo 7e88190, 2346ca0.) -/
+theorem C14_lookup :
+    (∀ ty k, specKind ty = some k → declaredKind ty = some k ∧ declaredPeak ty = specPeak k)
     ∧ (∀ ty, ty ∉ solutions.map (·.1) → ctorNameOfType ty = "empty_solution") := by
-  refine ⟨by decide, by decide, by decide, ?_⟩
-  intro ty hty
-  unfold ctorNameOfType
-  have : solutions.lookup ty = none := by
-    rw [List.lookup_eq_none_iff]
-    intro p hp
-    simp only [bne_iff_ne, ne_eq]
-    intro heq
-    apply hty
-    rw [List.mem_map]
-    exact ⟨p, hp, heq.symm⟩
-  rw [this]; rfl
+  constructor
+  · intro ty k h
+    unfold specKind at h
+    split at h
+    · cases h; decide
+    · cases h; decide
+    · cases h; decide
+    · cases h; decide
+    · exact absurd h (by simp)
+  · intro ty hty
+    unfold ctorNameOfType
+    have : solutions.lookup ty = none := by
+      rw [List.lookup_eq_none_iff]
+      intro p hp
+      simp only [bne_iff_ne, ne_eq]
+      intro heq
+      apply hty
+      rw [List.mem_map]
+      exact ⟨p, hp, heq.symm⟩
+    rw [this]; rfl
+
+/-- the parameters of the description that reach the time-domain constructor -/
+theorem C14_lookup_params :
+    filterParams "single_frequency_time_domain" ["w", "sin", "deg", "hertz", "precision", "polar"]
+      = ["w", "sin", "deg", "hertz"] := by
+  decide
 
 /-! ## the text denotes the quantity (composition with C18) -/
 
